@@ -36,6 +36,9 @@ def jobs(tier, seed):
                    "max_states": 400000})
     for spec in [wl("chain3"), wl("multitask"), wl("fail_mid"), wl("poll", 1)]:
         js.append({"label": f"{spec[0]}{spec[1]}|pause1,unpause1", "wl": spec, "budget": {"pause": 1, "unpause": 1}})
+    # rarely used control flow: a cancel region cancelled at any moment, a milestone-gated stage
+    js.append({"label": "region_diamond|cancel-region-anywhere", "wl": wl("region_diamond"), "budget": {"cancelregion": 1}})
+    js.append({"label": "milestone2|all-orders,noack1", "wl": wl("milestone2"), "budget": {"noack": 1}})
     if tier == "quick":
         for spec in SMALL:
             js.append({"label": f"{spec[0]}{spec[1]}|noack1", "wl": spec, "budget": {"noack": 1}})
